@@ -133,12 +133,13 @@ def _concretize_rolling(model, ctx, st, oid):
 rolling_plain = Contract("C13.RollableFunction.rolling_window[valid,ragged,plain output]", target=lambda: _rollable().rolling_window,
                          setup=_setup_rolling(None), requires=_requires, ensures=_ensures, callees=CALLEES,
                          concretize=_concretize_rolling, dropped=["docstring", "mode 'same' branch not taken (mode='valid' is the contracted case)"],
-                         canaries=[("trim one too few", "out[..., : (-window_size + 1)]", "out[..., : (-window_size + 2)]"),
+                         canaries=[("trim one too few", "out[..., : (-window_size + 1) or None]", "out[..., : (-window_size + 2) or None]"),
+                                   ("window size 1 trims everything (the repaired defect)", "out[..., : (-window_size + 1) or None]", "out[..., : (-window_size + 1)]"),
                                    ("window one short", "sliding_window_view(sequence, window_size, subok=True)", "sliding_window_view(sequence, window_size - 1, subok=True)")])
 rolling_encoded = Contract("C13.RollableFunction.rolling_window[valid,ragged,encoded output]", target=lambda: _rollable().rolling_window,
                            setup=_setup_rolling("KmerEncoding"), requires=_requires, ensures=_ensures, callees=CALLEES,
                            concretize=_concretize_rolling,
-                           canaries=[("trim one too many", "out[..., : (-window_size + 1)]", "out[..., : -window_size]")])
+                           canaries=[("trim one too many", "out[..., : (-window_size + 1) or None]", "out[..., : -window_size]")])
 
 
 # --- kmers.convolution(func).new_func and util.rolling_window_function(func).new_func ---------------------------
@@ -199,7 +200,7 @@ def _concretize_conv(model, ctx, st, oid):
 convolution = Contract("C13.kmers.convolution.new_func[ragged]", target=_conv_target, setup=_setup_conv2, requires=_requires, ensures=_ensures,
                        callees=None, concretize=_concretize_conv,
                        decorators={"@convolution": "the verified function IS the closure the decorator returns; the decorated raw function is the abstract callee"},
-                       canaries=[("trim one too few", "out[..., : (-window_size + 1)]", "out[..., : (-window_size + 2)]")])
+                       canaries=[("trim one too few", "out[..., : (-window_size + 1) or None]", "out[..., : (-window_size + 2) or None]")])
 convolution.callees = _callees_conv(_holder)
 
 CONTRACTS = [rolling_plain, rolling_encoded, convolution]
